@@ -1,6 +1,6 @@
 """C10 -- report summaries agree with the listed entries; --stat prints the same summary."""
 import os, re
-import vf, campaign, report
+import vf, campaign, report, difftree
 
 
 def summary_lines(txt):
@@ -21,20 +21,45 @@ def main():
         a, e1, da = campaign.build_one(c, idx, case, "gcc", which=1, sub="a")
         b, e2, db = campaign.build_one(c, idx, case, "gcc", which=2, sub="b")
         if not a or not b:
-            return []
+            return [], []
         env = vf.henv(da)
         # also strip debug info of the second binary for some cases: symbol sections come into play
         evs = []
+        trees = []
         for o in optsets:
             r = vf.run([abidiff, "--no-default-suppression"] + o + [a, b], env=env)
             s = vf.run([abidiff, "--no-default-suppression", "--stat"] + o + [a, b], env=env)
             rep = report.parse(r.out)
+            # hook H3: the diff forest behind this report, for DiffTreeTrace (same options + --dump-diff-tree)
+            t = vf.run([abidiff, "--no-default-suppression", "--dump-diff-tree"] + o + [a, b], env=env)
+            pt = difftree.parse(t.err)
+            if pt is not None and t.out == r.out:
+                nodes, unknown = pt
+                S = rep["summary"]
+                g = lambda part, k: S.get(part, {}).get(k, 0)
+                if unknown or len(nodes) > 60:
+                    trees.append(("discard", "unknown-category-name" if unknown else "tree-too-large"))
+                else:
+                    trees.append(("ok", {"e": "Tree", "case": idx, "opts": " ".join(o), "nodes": nodes, "showRed": "--redundant" in o, "allowHarmless": "--harmless" in o,
+                                         "allowHarmful": "--no-harmful" not in o, "sumChangedFns": g("fns", "changed"), "sumFilteredFns": g("fns", "changed_f"),
+                                         "sumChangedVars": g("vars", "changed"), "sumFilteredVars": g("vars", "changed_f"),
+                                         "netRemoved": g("fns", "removed") + g("vars", "removed") + g("fsyms", "removed") + g("vsyms", "removed"),
+                                         "netAdded": g("fns", "added") + g("vars", "added") + g("fsyms", "added") + g("vsyms", "added"),
+                                         "sonameOrArch": rep["soname"] or rep["arch"], "exit": r.exit, "ret": campaign.retof(t)}))
             evs.append({"e": "Summary", "case": idx, "opts": " ".join(o), "summary": rep["summary"], "entries": rep["entries"], "sections": rep["sections"],
                         "statSame": summary_lines(r.out) == summary_lines(s.out), "exit": r.exit, "statExit": s.exit, "ret": campaign.retof(r, s),
                         "out": r.out[:500]})
-        return evs
+        return evs, trees
 
-    events = [e for evs in vf.pmap(one, list(enumerate(cases))) for e in evs]
+    res = vf.pmap(one, list(enumerate(cases)))
+    events = [e for evs, _t in res for e in evs]
+    tree_events = []
+    for _e, ts in res:
+        for st, x in ts:
+            if st == "ok":
+                tree_events.append(x)
+            else:
+                c.discard(x)
     c.cov["evaluations"] = len(events)
     c.cov["distinct_nontrivial"] = len({(e["case"], e["opts"]) for e in events if sum(e["entries"].values()) >= 2})
     c.cov["rule"] = ("TLC-generated program pairs with 1-3 mutations x 5 option sets: per section the (net) number in the summary line, the number in the section header and the "
@@ -43,6 +68,11 @@ def main():
         c.sample(e)
     case_of = lambda ev: campaign.case_files(os.path.join(c.workdir, "p%d" % ev["case"]))
     vf.pmap(lambda i: c.validate("AbiTrace.tla", "AbiTrace.cfg", events[i:i + 3000], case_of=case_of), range(0, len(events), 3000), jobs=4)
+    # the forests behind the reports, validated against DiffTree's derivations (propagation, filtering, statistics, verdict bits)
+    c.model("DiffTree.tla", "DiffTree.cfg")
+    vf.pmap(lambda i: c.validate("DiffTreeTrace.tla", "DiffTreeTrace.cfg", tree_events[i:i + 400], case_of=case_of), range(0, len(tree_events), 400), jobs=6)
+    c.cov["diff_forests_validated"] = len(tree_events)
+    c.cov["evaluations"] += len(tree_events)
     c.finish()
 
 
